@@ -63,7 +63,7 @@ var reviewedPanics = map[string]string{
 
 func C07(p *core.Prog, r *core.Report) {
 	r.Rule("PUSH-POP", "in every parser-reachable function that calls (*pars.State).Push, every path from a Push to a return passes exactly one Pop or Drop (Clear closes all frames; `!state.Pushed()` means they are already closed): an error return that leaves the frame open makes pars.Any try its next alternative from the middle of the input", 13)
-	r.Rule("COMMIT", "the GenBank sub-parsers keep their reviewed commit points (state.Clear() turns a failure behind a recognised field name into a hard error instead of a backtracked one), and the feature-table parser only runs after one on every path", 4)
+	r.Rule("COMMIT", "the GenBank sub-parsers keep their reviewed commit points (state.Clear(), or a Pop of the dispatcher's frame, turns a failure behind a recognised field name into a hard error instead of a backtracked one), and the feature-table parser only runs after one on every path", 5)
 	r.Rule("PANIC", "every explicit panic(...) statement in a function reachable from the parser entry points is in the reviewed table of panics whose condition input text cannot reach (one reason per function)", 2)
 	r.Rule("IDX", "every index and slice expression the Go compiler's prove pass cannot show in bounds (its bounds-check-elimination report, inlining off) inside code reachable from the parser entry points is discharged by a dominating length guard, the post-condition of an index search (IndexByte/Index), a range key over a collection of the same length, n = len(s)/2 on a non-empty s, or a reviewed layout/shape argument with a fixed site count; constant children of a pars.Result are determined by the parser's shape and excluded", 20)
 	r.Rule("NN", "every count handed to strings.Repeat, bytes.Repeat, make and (*pars.State).Request in parser-reachable code is non-negative: constants, len/cap/copy, sums and products of non-negatives, quotients by positive constants, values on the false side of a dominating `x < 0` test or after a clamp, parameters and captured variables all of whose bindings are non-negative (calls through function values resolved by signature), struct fields all of whose writes are non-negative, and results of functions that are non-negative whenever their arguments are", 12)
@@ -280,6 +280,7 @@ var commitPoints = map[string]int{
 	"seqio.GenBankParser":          1, // after the LOCUS line: everything behind it belongs to this record
 	"seqio.genbankFieldNameParser": 2, // uneven indent after a recognised field name (two error returns)
 	"seqio.genbankFeatureParser":   1, // FEATURES header recognised: a malformed table is an error
+	"seqio.genbankSourceParser":    1, // SOURCE recognised but ORGANISM missing: pops the dispatcher's frame so the failure is not retried as an unknown field
 }
 
 // commit counts the state.Clear() calls of a body and checks that a feature
@@ -294,6 +295,16 @@ func (t *trapCtx) commit(info *types.Info, body *ast.BlockStmt, label string, cl
 		return false
 	}
 	var tableCalls []*ast.CallExpr
+	hasPush := false
+	ast.Inspect(body, func(n ast.Node) bool {
+		if fl, ok := n.(*ast.FuncLit); ok && fl.Body != body {
+			return false
+		}
+		if c, ok := n.(*ast.CallExpr); ok && core.IsCallTo(info, c, parsPkg+".State.Push") {
+			hasPush = true
+		}
+		return true
+	})
 	ast.Inspect(body, func(n ast.Node) bool {
 		if fl, ok := n.(*ast.FuncLit); ok && fl.Body != body {
 			return false
@@ -304,6 +315,9 @@ func (t *trapCtx) commit(info *types.Info, body *ast.BlockStmt, label string, cl
 		}
 		if core.IsCallTo(info, c, parsPkg+".State.Clear") {
 			clears[label]++
+		}
+		if core.IsCallTo(info, c, parsPkg+".State.Pop", parsPkg+".State.Drop") && !hasPush {
+			clears[label]++ // closes a frame it did not open: the dispatcher's
 		}
 		if id, ok := ast.Unparen(c.Fun).(*ast.Ident); ok {
 			if v, ok := info.Uses[id].(*types.Var); ok {
